@@ -208,8 +208,24 @@ Definition init_stale (pre : list event) (q : list (nat * nat)) : st :=
    persister.loadPipeInfo finds nothing): the new pipe has no descriptor and no worker; the source journal, the
    writers in flight and the channel are what they were. The destination partition {logrange.pipe=name} keeps the
    events of the earlier epoch; dst counts what the workers of the NEW pipe append. *)
-Definition recreate (s : st) : st :=
-  {| log := log s; cfrm := cfrm s; infl := infl s; queue := queue s; desc := None; wrk := None; dst := []; alive := true |}.
+Definition recreate_v (survives : bool) (s : st) : st :=
+  {| log := log s; cfrm := cfrm s; infl := infl s; queue := queue s;
+     desc := if survives
+             then match desc s with
+                  | Some d => Some {| p_pos := p_pos d; p_lkp := p_lkp d; p_chg := false |}
+                  | None => None
+                  end
+             else None;
+     wrk := None; dst := []; alive := true |}.
+
+(* The model keeps a pipe's positions in its descriptor only; the file they are saved to (persister.savePipeInfo in
+   saveState) is not a component of the state. What the file adds to the protocol is whether the positions of a deleted
+   pipe reach a pipe created later under its name: survives = true is the code before the repair of ppipe.saveState,
+   when a worker of the deleted pipe that stood between its journal write and saveState wrote the file again after
+   onDeleteStream had removed it (newPPipe -> loadPipeInfo then starts from the old Pos / LastKnwnPos, wCharged false);
+   survives = false is the code: saveState returns NotFound for a deleted pipe, the removal is final. *)
+Definition code_state_survives_delete : bool := false.
+Definition recreate (s : st) : st := recreate_v code_state_survives_delete s.
 
 (* what the property asks the destination to hold for this source *)
 Definition expected (tags : list (bytes * bytes)) (base : nat) (l : list event) : list devent :=
